@@ -366,7 +366,7 @@ func (run *sRun) recoverAndCheck(dir string, pre, post *sModel, opi int, where s
 	}()
 	var relax *sRelax
 	if pre != post {
-		relax = &sRelax{pre: pre, post: post}
+		relax = &sRelax{pre: pre, post: post, anyVersion: opi >= 0 && opi < len(c.Ops) && c.Ops[opi].K == "dropm"}
 	}
 	if v := readChecksOn(node.sh, post, c, run.r, out, run.prop, opi, "crash", 1, relax); v != nil {
 		v.Kind = "crash_" + v.Kind
@@ -406,14 +406,22 @@ func (run *sRun) recoverAndCheck(dir string, pre, post *sModel, opi int, where s
 	if v := sub.step(opi, SOp{K: "w", ID: wid, Rows: rows}); v != nil {
 		return fail("crash_"+v.Kind, "write after recovery: "+v.Detail, v.Attrs), recJournal
 	}
-	if v := readChecksOn(node.sh, m2, c, run.r, out, run.prop, opi, "crash+write", 1, nil); v != nil {
+	// an in-flight drop stays undecided per row after recovery (an un-acknowledged drop may have removed any
+	// subset of what it names): both models take the further write, and the relaxation stays in force
+	var relax2 *sRelax
+	if relax != nil && opi >= 0 && opi < len(c.Ops) && c.Ops[opi].K == "dropm" {
+		p2 := pre.clone()
+		p2.applyWrite(wid, rows)
+		relax2 = &sRelax{pre: p2, post: m2, anyVersion: true}
+	}
+	if v := readChecksOn(node.sh, m2, c, run.r, out, run.prop, opi, "crash+write", 1, relax2); v != nil {
 		v.Kind = "crash_" + v.Kind
 		v.Detail = where + ": after one more write on the recovered shard: " + v.Detail
 		v.Attrs = mergeAttrsS(v.Attrs, at)
 		return v, recJournal
 	}
 	node.sh.ForceFlush()
-	if v := readChecksOn(node.sh, m2, c, run.r, out, run.prop, opi, "crash+write+flush", 1, nil); v != nil {
+	if v := readChecksOn(node.sh, m2, c, run.r, out, run.prop, opi, "crash+write+flush", 1, relax2); v != nil {
 		v.Kind = "crash_" + v.Kind
 		v.Detail = where + ": after a write and a flush on the recovered shard: " + v.Detail
 		v.Attrs = mergeAttrsS(v.Attrs, at)
